@@ -125,3 +125,40 @@ func init() {
 		externals["(*log.Logger)."+m] = nop
 	}
 }
+
+// xsync.Counter: a striped counter built on unsafe/atomics; modelled as one int64 cell.
+func init() {
+	externals["github.com/puzpuzpuz/xsync/v4.NewCounter"] = func(fr *frame, a []value) value {
+		var cell value = int64(0)
+		return &cell
+	}
+	cnt := "(*github.com/puzpuzpuz/xsync/v4.Counter)."
+	add := func(d func(a []value) value) externalFn {
+		return func(fr *frame, a []value) value {
+			E.yield(false)
+			p := a[0].(*value)
+			if _, ok := (*p).(int64); !ok {
+				if _, isSym := (*p).(sym); !isSym {
+					*p = int64(0) // a zero-value Counter struct adopted in place
+				}
+			}
+			*p = binop(token.ADD, tInt64, *p, d(a))
+			return nil
+		}
+	}
+	externals[cnt+"Inc"] = add(func(a []value) value { return int64(1) })
+	externals[cnt+"Dec"] = add(func(a []value) value { return int64(-1) })
+	externals[cnt+"Add"] = add(func(a []value) value { return a[1] })
+	externals[cnt+"Value"] = func(fr *frame, a []value) value {
+		E.yield(false)
+		p := a[0].(*value)
+		if v, ok := (*p).(int64); ok {
+			return v
+		}
+		if s, ok := (*p).(sym); ok {
+			return s
+		}
+		return int64(0)
+	}
+	externals[cnt+"Reset"] = func(fr *frame, a []value) value { *(a[0].(*value)) = int64(0); return nil }
+}
